@@ -132,53 +132,85 @@ def main():
     with ThreadPoolExecutor(vlib.NCPU) as ex:
         results = list(ex.map(run, range(len(graphs))))
 
-    for (k, edges, kind), res in zip(graphs, results):
-        ck.count()
-        ck.dist('%s:k=%d' % (kind, k))
-        if res[0] != 'ok':
-            ck.violation('corr_C16_run', 'interrogate failed while building a module: ' + res[1][:200], {'kind': 'correspondence', 'edges': edges}, nofail=True)
-            continue
-        _, outs, inherit, tdef = res
-        # dependency graph as interrogate_module sees it: library i depends on j for inheritance and typedef edges
-        g = {i: sorted(set(j for (a, j) in edges if a == i)) for i in range(k)}
-        sx = '(' + ' '.join('(%d (%s))' % (i, ' '.join(map(str, g[i]))) for i in range(k)) + ')'
-        m = vlib.run_model('C16', 'order', [sx])[0]
-        mlibs = [NAMES[int(x)] for x in m.split('|')[0].replace('libs:', '').split()]
-        removed = m.split('removed:')[1].split()
-        cyclic = bool(removed)
-        replay = {'kind': 'spec', 'k': k, 'edges(derived->base)': edges, 'inheritance_edges': inherit, 'typedef_edges': tdef,
-                  'cmd': 'interrogate -python-native per library; interrogate_module -python-native -oc mod.cxx <.in files>'}
-        for perm, rc, libs, reg, defs, circ in outs:
-            rp = dict(replay, command_line_order=[NAMES[i] for i in perm], referencing=libs, register_calls=reg)
-            if rc != 0:
-                ck.spec_failure('exit', 'interrogate_module failed (status %d) on loadable databases' % rc, rp)
+    def evaluate(graph_list, result_list):
+        for (k, edges, kind), res in zip(graph_list, result_list):
+            ck.count()
+            ck.dist('%s:k=%d' % (kind, k))
+            if res[0] != 'ok':
+                ck.violation('corr_C16_run', 'interrogate failed while building a module: ' + res[1][:200], {'kind': 'correspondence', 'edges': edges}, nofail=True)
                 continue
-            # --- specification ---
-            if sorted(libs) != sorted(NAMES[:k]) or sorted(reg) != sorted(NAMES[:k]) or sorted(defs) != sorted(NAMES[:k]):
-                ck.spec_failure('each-once', 'libraries referenced %s / registered %s: not each of %s exactly once' % (libs, reg, NAMES[:k]), rp)
-                continue
-            if reg != libs or defs != libs:
-                ck.spec_failure('order-consistent', 'RegisterTypes order %s differs from the library order %s' % (reg, libs), rp)
-                continue
-            if not cyclic:
-                bad = [(i, j) for (i, j) in edges if libs.index(NAMES[j]) > libs.index(NAMES[i])]
-                if bad:
-                    ck.spec_failure('topological', 'library %s is initialised before %s although its class derives from / is a typedef of it' % (NAMES[bad[0][0]], NAMES[bad[0][1]]), rp)
+            _, outs, inherit, tdef = res
+            # dependency graph as interrogate_module sees it: library i depends on j for inheritance and typedef edges
+            g = {i: sorted(set(j for (a, j) in edges if a == i)) for i in range(k)}
+            sx = '(' + ' '.join('(%d (%s))' % (i, ' '.join(map(str, g[i]))) for i in range(k)) + ')'
+            m = vlib.run_model('C16', 'order', [sx])[0]
+            mlibs = [NAMES[int(x)] for x in m.split('|')[0].replace('libs:', '').split()]
+            removed = m.split('removed:')[1].split()
+            cyclic = bool(removed)
+            replay = {'kind': 'spec', 'k': k, 'edges(derived->base)': edges, 'inheritance_edges': inherit, 'typedef_edges': tdef,
+                      'cmd': 'interrogate -python-native per library; interrogate_module -python-native -oc mod.cxx <.in files>'}
+            for perm, rc, libs, reg, defs, circ in outs:
+                rp = dict(replay, command_line_order=[NAMES[i] for i in perm], referencing=libs, register_calls=reg)
+                if rc != 0:
+                    ck.spec_failure('exit', 'interrogate_module failed (status %d) on loadable databases' % rc, rp)
                     continue
-                if circ:
-                    ck.spec_failure('false-cycle', 'a circular dependency was reported for an acyclic module', rp)
+                # --- specification ---
+                if sorted(libs) != sorted(NAMES[:k]) or sorted(reg) != sorted(NAMES[:k]) or sorted(defs) != sorted(NAMES[:k]):
+                    ck.spec_failure('each-once', 'libraries referenced %s / registered %s: not each of %s exactly once' % (libs, reg, NAMES[:k]), rp)
                     continue
-            else:
-                if not circ:
-                    ck.spec_failure('cycle-not-reported', 'a dependency cycle was not reported', rp)
+                if reg != libs or defs != libs:
+                    ck.spec_failure('order-consistent', 'RegisterTypes order %s differs from the library order %s' % (reg, libs), rp)
                     continue
-            # --- correspondence: exact order ---
-            if libs != mlibs:
-                ck.violation('corr_C16_order', 'order %s, model %s' % (libs, mlibs), dict(rp, kind='correspondence', model=mlibs), nofail=True)
-            else:
-                ck.nontrivial('%s|%s|%s' % (k, edges, perm))
-        if len(ck.cov['samples']) < 3 and k >= 3 and edges:
-            ck.sample({'libraries': NAMES[:k], 'edges(derived->base)': edges, 'order': outs[0][2], 'cyclic': cyclic})
+                if not cyclic:
+                    bad = [(i, j) for (i, j) in edges if libs.index(NAMES[j]) > libs.index(NAMES[i])]
+                    if bad:
+                        ck.spec_failure('topological', 'library %s is initialised before %s although its class derives from / is a typedef of it' % (NAMES[bad[0][0]], NAMES[bad[0][1]]), rp)
+                        continue
+                    if circ:
+                        ck.spec_failure('false-cycle', 'a circular dependency was reported for an acyclic module', rp)
+                        continue
+                else:
+                    if not circ:
+                        ck.spec_failure('cycle-not-reported', 'a dependency cycle was not reported', rp)
+                        continue
+                    # only dependencies that lie on a cycle may be broken: a violated edge i->j needs a path j ->* i
+                    reach = {x: {x} for x in range(k)}
+                    changed = True
+                    while changed:
+                        changed = False
+                        for (x, y) in edges:
+                            new = reach[y] - reach[x]
+                            if new:
+                                reach[x] |= new
+                                changed = True
+                    bad = [(i, j) for (i, j) in edges if libs.index(NAMES[j]) > libs.index(NAMES[i]) and i not in reach[j]]
+                    if bad:
+                        ck.spec_failure('topological', 'library %s is initialised before %s, which it depends on, although that dependency is on no cycle' % (NAMES[bad[0][0]], NAMES[bad[0][1]]), rp)
+                        continue
+                # --- correspondence: exact order ---
+                if libs != mlibs:
+                    ck.violation('corr_C16_order', 'order %s, model %s' % (libs, mlibs), dict(rp, kind='correspondence', model=mlibs), nofail=True)
+                else:
+                    ck.nontrivial('%s|%s|%s' % (k, edges, perm))
+            if len(ck.cov['samples']) < 3 and k >= 3 and edges:
+                ck.sample({'libraries': NAMES[:k], 'edges(derived->base)': edges, 'order': outs[0][2], 'cyclic': cyclic})
+
+    evaluate(graphs, results)
+    if any(v[0].startswith('corr_C16') for v in ck.violations) and not any(not v[3] for v in ck.violations):
+        # the model no longer describes the code: search for an input on which the PROPERTY fails (denser cyclic graphs on 4-5 libraries)
+        base = len(graphs)
+        pairs3 = [(i, j) for i in range(3) for j in range(3) if i != j]
+        for r_ in range(len(pairs3) + 1):
+            for es in itertools.combinations(pairs3, r_):
+                graphs.append((3, list(es), 'search'))
+        for _ in range(ck.scale(240, 1500)):
+            k = rng.choice([4, 4, 5])
+            pairs = [(i, j) for i in range(k) for j in range(k) if i != j]
+            graphs.append((k, [p for p in pairs if rng.random() < rng.choice([0.25, 0.35, 0.45])], 'search'))
+        with ThreadPoolExecutor(vlib.NCPU) as ex:
+            more = list(ex.map(run, range(base, len(graphs))))
+        evaluate(graphs[base:], more)
+        ck.cov['streams'] = dict(ck.cov.get('streams', {}), search_after_correspondence_break=len(more))
 
     # ---------------- a database that fails to load: non-zero exit, no output file ------------------
     k, edges, _ = 2, [(0, 1)], None
@@ -188,7 +220,8 @@ def main():
     ins = [os.path.join(root, NAMES[i], NAMES[i] + '.in') for i in range(graphs[0][0])]
     if ins and os.path.exists(ins[0]):
         good = open(ins[0], 'rb').read()
-        for label, data in (('missing', None), ('truncated', good[:len(good) // 2]), ('newer-major', good.replace(b'\n3 3\n', b'\n4 0\n', 1)), ('garbage', b'not a database\n')):
+        for label, data, position in [(l_, d_, pos_) for (l_, d_) in (('missing', None), ('truncated', good[:len(good) // 2]), ('newer-major', good.replace(b'\n3 3\n', b'\n4 0\n', 1)), ('garbage', b'not a database\n'))
+                                      for pos_ in ('alone', 'before-good', 'after-good')]:
             bad = os.path.join(root, 'bad.in')
             if data is None:
                 if os.path.exists(bad):
@@ -198,7 +231,9 @@ def main():
             oc = os.path.join(root, 'bad.cxx')
             if os.path.exists(oc):
                 os.unlink(oc)
-            p = subprocess.run([b['interrogate_module'], '-python-native', '-module', 'mod', '-library', 'mod', '-oc', oc, bad],
+            files_ = {'alone': [bad], 'before-good': [bad, ins[0]], 'after-good': [ins[0], bad]}[position]
+            label = label + ':' + position
+            p = subprocess.run([b['interrogate_module'], '-python-native', '-module', 'mod', '-library', 'mod', '-oc', oc] + files_,
                                stdout=subprocess.PIPE, stderr=subprocess.PIPE, text=True, timeout=60, cwd=root)
             ck.count()
             ck.dist('load-failure')
